@@ -4,7 +4,7 @@ from vv.registry import PROPS, COMMON_ASSUME, rc
 harness("h_c07", ["harness/h_c07.cc"], libs=("csg",))
 
 PROPS["C07"] = dict(
-    parts=[rc("h_c07", quick=dict(cases=24000, procs=4, budget_s=600),
+    parts=[rc("h_c07", quick=dict(cases=160000, procs=4, budget_s=600),
               thorough=dict(cases=1600000, procs=16, budget_s=3000))],
     rule=("bond/angle/dihedral: 2/3/4 beads built from internal coordinates (bond lengths 0.1..10 of each other, bond angles 3.5..176.5 deg, "
           "dihedral +-(3.5..176.5) deg, random orientation), open / orthorhombic / GROMACS-reduced triclinic box incl. |bx|=ax/2, auto-detected "
@@ -18,7 +18,7 @@ PROPS["C07"] = dict(
           "CBSPL with 8..40 knots and min on / off a knot. Oracle: CalculateDF vs numerical d/dlam of CalculateF, CalculateD2F vs numerical d/dlam "
           "of CalculateDF (same extrapolation; linear parameters get a step that makes the difference dominate, tolerance contains "
           "32 eps |terms|/h), D2F symmetric, SavePotTab(step[,rmin,rcut]) rows: count, abscissae min+k*step (last = cutoff), ordinate = "
-          "CalculateF within the 10 printed digits, flag i. Non-trivial: all parameters non-zero. "
+          "CalculateF within the 10 printed digits, flag i. Non-trivial: LJ126/LJG all parameters non-zero, CBSPL >= 80 % of the free knot values non-zero. "
           "spline_derivative: data sets of C12 (uniform / non-uniform up to 1e3 / clustered grids, 2..300 points, 9 ordinate families), "
           "linear / cubic / Akima, natural / periodic, interpolation and Fit on a coarser grid. Oracle: CalculateDerivative vs numerical "
           "derivative of Calculate; central (exact for cubics after extrapolation) inside intervals and outside the grid, one-sided 4-point "
